@@ -1,7 +1,7 @@
-\* C17 sessions (specification): every session of 3 calls over 3 documents; ReadAlone holds; all sessions emitted
+\* C17 sessions (specification): every session of 4 calls over 3 documents; ReadAlone holds; all sessions emitted
 CONSTANTS
     Docs = {1, 2, 3}
-    MaxOps = 3
+    MaxOps = 4
     Registry = "none"
     EmitOn = TRUE
 INIT Init
